@@ -76,9 +76,111 @@ def value_axioms(used):
         ax.append(z3.ForAll([v], z3.Implies(static_f(v), sub(typeof(v), CLASSES.const("Value"))), patterns=[static_f(v)]))
     if "CanAssignError" in used:
         ax.append(z3.ForAll([v], z3.Implies(static_f(v), z3.Not(sub(typeof(v), CLASSES.const("CanAssignError")))), patterns=[static_f(v)]))
+    if "MultiValuedValue" in used:
+        # static values are well-formed (unions never nested: constructor invariant) and contain no unreachable-Any
+        from pyvc.core import unS, unB
+        from pyvc.values import fld, uf
+        i = z3.Const("wi", IntS)
+        vals = unS(fld("vals")(v))
+        unreach = uf("fn:pyanalyze.value._is_unreachable", V, V)
+        mvv = CLASSES.const("MultiValuedValue")
+        ax.append(z3.ForAll([v], z3.Implies(z3.And(static_f(v), typeof(v) == mvv),
+                                           z3.ForAll([i], z3.Implies(z3.And(0 <= i, i < Q.slen(vals)),
+                                                                     z3.And(z3.Not(union_like_t(Q.at(vals, i))), static_f(Q.at(vals, i)))))), patterns=[static_f(v)]))
+        ax.append(z3.ForAll([v], z3.Implies(static_f(v), z3.Not(unB(unreach(v)))), patterns=[static_f(v)]))
+        # ... and a well-formed union of static members is static
+        ax.append(z3.ForAll([v], z3.Implies(z3.And(typeof(v) == mvv,
+                                                  z3.ForAll([i], z3.Implies(z3.And(0 <= i, i < Q.slen(vals)),
+                                                                            z3.And(z3.Not(union_like_t(Q.at(vals, i))), static_f(Q.at(vals, i)))))),
+                                           static_f(v)), patterns=[static_f(v)]))
+        if "AnnotatedValue" in used:
+            ax.append(z3.ForAll([v], z3.Implies(z3.And(static_f(v), typeof(v) == CLASSES.const("AnnotatedValue")), static_f(fld("value")(v))), patterns=[static_f(v)]))
     return ax
 
 
 if not hasattr(REG, "axiom_hooks"):
     REG.axiom_hooks = []
 REG.axiom_hooks.append(value_axioms)
+
+
+# ---------------------------------------------------------------------------
+# structure of gamma for unions and annotated values (global, trigger-driven: instantiated only on
+# mem-terms that occur in the query)
+
+from pyvc.core import unS
+from pyvc.values import fld, uf
+
+md_ok_f = z3.Function("md_ok", O, V, BoolS)      # o satisfies the metadata sequence (boxed tuple)
+ext_ok_f = z3.Function("ext_ok", O, V, BoolS)    # o satisfies one metadata item
+
+
+def union_axioms(used):
+    ax = []
+    v = z3.Const("uv", V)
+    o = z3.Const("uo", O)
+    i = z3.Const("ui", IntS)
+    if "MultiValuedValue" in used:
+        vals = unS(fld("vals")(v))
+        ax.append(z3.ForAll([v, o], z3.Implies(typeof(v) == CLASSES.const("MultiValuedValue"),
+                                              mem_f(o, v) == z3.Exists([i], z3.And(0 <= i, i < Q.slen(vals), mem_f(o, Q.at(vals, i))))),
+                            patterns=[mem_f(o, v)]))
+    if "AnnotatedValue" in used:
+        ax.append(z3.ForAll([v, o], z3.Implies(typeof(v) == CLASSES.const("AnnotatedValue"),
+                                              mem_f(o, v) == z3.And(mem_f(o, fld("value")(v)), md_ok_f(o, fld("metadata")(v)))),
+                            patterns=[mem_f(o, v)]))
+        md = unS(v)
+        ax.append(z3.ForAll([v, o], md_ok_f(o, v) == z3.ForAll([i], z3.Implies(z3.And(0 <= i, i < Q.slen(md)), ext_ok_f(o, Q.at(md, i)))),
+                            patterns=[md_ok_f(o, v)]))
+    # equal values have equal meaning
+    from pyvc.core import pyeq
+    a, b = z3.Const("ea", V), z3.Const("eb", V)
+    ax.append(z3.ForAll([a, b, o], z3.Implies(z3.And(pyeq(a, b), mem_f(o, a)), mem_f(o, b)), patterns=[z3.MultiPattern(pyeq(a, b), mem_f(o, a))]))
+    return ax
+
+
+REG.axiom_hooks.append(union_axioms)
+
+
+@spec_function()
+def md_ok(ex, st, o, md):
+    return S_bool(md_ok_f(o.t, box(md, st)))
+
+
+@spec_function()
+def wf_union(ex, st, v):
+    """data-structure invariant of MultiValuedValue: never nested (no member is itself a union)"""
+    ex.note_class("MultiValuedValue")
+    t = box(v, st)
+    i = fresh("wi", IntS)
+    vals = unS(fld("vals")(t))
+    ex.note_class("AnnotatedValue")
+    return S_bool(z3.Implies(typeof(t) == CLASSES.const("MultiValuedValue"),
+                             z3.ForAll([i], z3.Implies(z3.And(0 <= i, i < Q.slen(vals)), z3.Not(union_like_t(Q.at(vals, i)))))))
+
+
+def union_like_t(x):
+    mvv = CLASSES.const("MultiValuedValue")
+    return z3.Or(typeof(x) == mvv, z3.And(typeof(x) == CLASSES.const("AnnotatedValue"), typeof(fld("value")(x)) == mvv))
+
+
+@spec_function()
+def union_like(ex, st, v):
+    """a union, or an Annotated wrapper around a union (what flatten_values / the union constructor expand)"""
+    ex.note_class("MultiValuedValue")
+    ex.note_class("AnnotatedValue")
+    return S_bool(union_like_t(box(v, st)))
+
+CLASSES.final |= {"MultiValuedValue", "AnnotatedValue", "CanAssignError", "LowerBound", "UpperBound", "OrBound", "IsOneOf"}
+
+
+def _never(ex, st):
+    """NO_RETURN_VALUE = MultiValuedValue([]): the empty union"""
+    from pyvc.core import CONSTS, S_val
+    ex.note_class("MultiValuedValue")
+    c = CONSTS.get("global", "pyanalyze.value.NO_RETURN_VALUE")
+    st.pc.append(typeof(c) == CLASSES.const("MultiValuedValue"))
+    st.pc.append(Q.slen(unS(fld("vals")(c))) == 0)
+    return S_val(c)
+
+
+REG.constants["pyanalyze.value.NO_RETURN_VALUE"] = _never
